@@ -419,9 +419,16 @@ class Scene:
             parts.append(f'top:{rng.choice([0, 2, -3])}px;left:{rng.choice([0, 4, -2])}px')
         else:
             parts.append(f'top:{rng.randrange(0, 200)}px;left:{rng.randrange(0, 300)}px')
-            if rng.random() < 0.15 and not self.geo:
+            roll = rng.random()
+            if roll < 0.15 and not self.geo:
                 parts.append('clip:rect(0px,30px,30px,0px)')
                 self.used.add('clip')
+            elif roll < 0.3 and self.geo:
+                # geometry mode: the rectangle itself is compared; every side a length or `auto`
+                sides = [rng.choice(['0px', '2px', '5px', 'auto']), rng.choice(['20px', '30px', '45px', 'auto', 'auto']),
+                         rng.choice(['15px', '30px', 'auto']), rng.choice(['0px', '3px', '10px', 'auto', 'auto'])]
+                parts.append(f'clip:rect({",".join(sides)})')
+                self.used.add('clip-auto' if 'auto' in sides else 'clip')
         self.used.add('positioned')
         return parts
 
@@ -688,6 +695,11 @@ def geometry_table(page_box):
             clip = box.style['background_clip'][0]
             entries.append(['B', box._vid, geo_of(box), clip])
         name = type(box).__name__
+        if box.is_absolutely_positioned() and box.style['clip']:
+            entries.append(['P', box._vid,
+                            [Fraction(box.border_box_x()), Fraction(box.border_box_y()), Fraction(box.border_width()),
+                             Fraction(box.border_height())],
+                            ['auto' if side == 'auto' else Fraction(side) for side in box.style['clip']]])
         if name == 'TableRowBox':
             entries.append(['R', box._vid, geo_of(box), [cell._vid for cell in box.children]])
         elif name == 'TableRowGroupBox':
